@@ -68,34 +68,66 @@ def _allowed_import(name, globals=None, locals=None, fromlist=(), level=0):
 
 
 def make_plain(proto):
-    def lem(sh: int, ai: int, si: int) -> bool:
+    def lem(sh: int) -> bool:
         """
-        pre: 0 <= sh < 48 and 0 <= ai < 13 and 0 <= si < 9
+        pre: 0 <= sh < 48
         post: _
         """
         if sh >= NSHAPES:
             return True
-        sh, ai, si = pin(sh, 0, NSHAPES - 1), pin(ai, 0, len(INTS) - 1), pin(si, 0, len(STRS) - 1)
+        sh = pin(sh, 0, NSHAPES - 1)
         with native():
-            a, b = INTS[ai], INTS[(ai + 3) % len(INTS)]
-            s, t, f = STRS[si], BYTS[si % len(BYTS)], FLTS[si % len(FLTS)]
-            obj = shapes(a, b, s, t, f)[sh]
-            key = classify(obj, proto)
-            if rt.skip("plain/%s" % key):
-                return True
-            data = pickle.dumps(obj, proto)
-            try:
-                src = ast.unparse(Pickled.load(data).ast)
-            except NotImplementedError:
-                return True          # unsupported opcode at this protocol: refusal
-            rt.reach()
-            env = {"__builtins__": {"__import__": _allowed_import, "set": set, "frozenset": frozenset, "bytearray": bytearray, "bytes": bytes}}
-            exec(compile(src, "<decompiled>", "exec"), env)     # a program that does not run is a violation (raises)
-            got = env["result"]
-            return _same(got, obj)
+            # leaves are enumerated inside the cell (big shapes ignore most of them: one pass is enough there)
+            big = sh >= NSHAPES - 5
+            for ai in (range(len(INTS)) if not big else (1,)):
+                for si in (range(len(STRS)) if not big else (1,)):
+                    what = _plain_one(proto, sh, ai, si)
+                    if what is not None:
+                        LAST[0] = what
+                        return False
+            return True
 
     lem.__name__ = lem.__qualname__ = "plain_p%d" % proto
     return lem
+
+
+LAST = [None]
+
+
+def make_plain_replay(proto):
+    lem = make_plain(proto)
+
+    def replay(sh):
+        LAST[0] = None
+        try:
+            ok = lem(sh)
+        except Exception as e:
+            return "raised %s: %s" % (type(e).__name__, str(e)[:200])
+        return None if ok else (LAST[0] or "lemma returns False")
+    return replay
+
+
+def _plain_one(proto, sh, ai, si):
+    a, b = INTS[ai], INTS[(ai + 3) % len(INTS)]
+    s, t, f = STRS[si], BYTS[si % len(BYTS)], FLTS[si % len(FLTS)]
+    obj = shapes(a, b, s, t, f)[sh]
+    key = classify(obj, proto)
+    if rt.skip("plain/%s" % key):
+        return None
+    data = pickle.dumps(obj, proto)
+    try:
+        src = ast.unparse(Pickled.load(data).ast)
+    except NotImplementedError:
+        return None          # unsupported opcode at this protocol: refusal
+    rt.reach()
+    env = {"__builtins__": {"__import__": _allowed_import, "set": set, "frozenset": frozenset, "bytearray": bytearray, "bytes": bytes}}
+    try:
+        exec(compile(src, "<decompiled>", "exec"), env)
+    except Exception as e:
+        return "decompiled program does not run (%s: %s) for %r at protocol %d" % (type(e).__name__, str(e)[:80], str(obj)[:60], proto)
+    if not _same(env["result"], obj):
+        return "decompiled program rebuilds %r, expected %r (protocol %d)" % (str(env["result"])[:80], str(obj)[:80], proto)
+    return None
 
 
 def _same(a, b):
@@ -114,8 +146,8 @@ def lemmas(tier):
     q = tier == "quick"
     L = c03.lemmas(tier, oracle="C05")
     for proto in range(6):
-        L.append(Lemma("plain_p%d" % proto, make_plain(proto), timeout=300 if q else 1200, dry=[{"sh": 20, "ai": 3, "si": 2}, {"sh": 17, "ai": 0, "si": 0}],
-                       doc={"F": ["%d shapes (scalars, containers, nesting, shared sub-objects, sets, bytearray)" % NSHAPES, "int leaves from %d boundary samples" % len(INTS),
-                                  "text/bytes/float leaves from samples", "protocol %d, pickled by CPython's pickler" % proto],
+        L.append(Lemma("plain_p%d" % proto, make_plain(proto), timeout=300 if q else 1200, dry=[{"sh": 20}, {"sh": 17}], replay=make_plain_replay(proto),
+                       doc={"F": ["solver-partitioned: %d shapes (scalars, containers, nesting, shared sub-objects, sets, bytearray, shared containers of 1001 items)" % NSHAPES,
+                                  "enumerated per cell: int leaves from %d boundary samples x text/bytes/float leaves from %d samples" % (len(INTS), len(STRS)), "protocol %d, pickled by CPython's pickler" % proto],
                             "bound": "listed shapes and leaves"}))
     return L
